@@ -29,6 +29,18 @@ theorem reload_info_equal (k : FragKind) (d : Doc) (hwf : wfDoc d = true) :
     ∃ d', parse (writeXml k d) = some d' ∧ InfoEqDoc d' d :=
   ⟨canonDoc d, save_reload k d hwf, canonDoc_infoEq d hwf⟩
 
+/-- **The saved bytes identify the document**: two Capella-shaped in-memory documents that save to the same
+bytes (as whatever kinds of fragment) are the same document up to the order-insensitive parts (`canonDoc`) —
+saving never merges two different states into one file content. -/
+theorem saved_bytes_identify_document (k k' : FragKind) (d d' : Doc)
+    (hwf : wfDoc d = true) (hwf' : wfDoc d' = true) (h : writeXml k d = writeXml k' d') :
+    canonDoc d = canonDoc d' := by
+  have h1 := save_reload k d hwf
+  have h2 := save_reload k' d' hwf'
+  rw [h] at h1
+  rw [h1] at h2
+  exact Option.some.inj h2
+
 /-- No accepted tree edit leads out of the Capella-shaped documents: setting an attribute with a
 declared name to **any** XML-legal string, deleting an attribute, setting the text of a childless
 element to any non-empty XML-legal string (white space included), inserting a well-formed child
